@@ -324,6 +324,7 @@ def substituteCore (text old new : Value) (inst : Option Num) : Except Err Value
     (match text, old, new with
      | .str s, .str o, .str n => .ok (.str (pyReplace s o n))
      | .other _, _, _ => .ok noOpinion
+     | .date _, _, _ => .ok noOpinion          -- `datetime.replace(year, month)`: another method of the same name
      | _, _, _ => .error .error)               -- AttributeError (no `.replace`) / TypeError
   | some k =>
     match hasLen? old, hasLen? text with
